@@ -158,6 +158,17 @@ Section Back.
     VTab (map (fun kv => (fst kv, tv_of_anode (snd kv))) l).
 End Back.
 
+(* ---- the two oracles together: what is assumed of std's float printing and parsing (DESIGN.md 4.4) ----------------
+   for every 64-bit pattern b the serializer can hand over (NaN already without its sign):
+     - the text printed for b denotes nan / inf / a decimal m * 10^e with a fraction (e < 0: the writer appends ".0" to
+       an integral value) below the overflow threshold of the parser (Model/Numbers.v `overflows`);
+     - parsing that text gives b back, or a NaN for a NaN (the payload is not in the text).
+   Props/C11.v `std_roundtrip_hyp` is the same assumption for the finite non-zero values, stated on the text. *)
+Definition float_oracle (fd : N -> fval) (back : fval -> N) : Prop :=
+  forall b, (b < 2 ^ 64)%N ->
+    match fd b with FDec _ m e => (e < 0)%Z /\ overflows m e = false | _ => True end
+    /\ f64_eq b (back (fd b)).
+
 (* what the deserializer (toml_edit::de::from_str / toml::from_str: `de_value` on the root table) makes of a parsed document *)
 Definition de_doc (back : fval -> N) (t : ty) (l : list (bytes * anode)) : result sval :=
   de_value t (tomlval_of_abs back l).
